@@ -26,6 +26,9 @@ pub enum Stage {
     /// StreamToPdu + VecToStream pair is not a single stage; see Shape::Packets.
     XorConst(u64),
     MulConst(u64),
+    /// The real FirFilter with taps 1, 2, .., n: needs a window of n samples
+    /// and leaves n - 1 of them in its input stream.
+    Fir(usize),
 }
 
 impl Stage {
@@ -44,6 +47,14 @@ impl Stage {
             }
             Stage::Resamp(i, d) => crate::specs::resample(input, *i, *d),
             Stage::MoveWait | Stage::SyncId | Stage::MoveWaitFunc => input.to_vec(),
+            Stage::Fir(n) => {
+                if input.len() < *n {
+                    return vec![];
+                }
+                (0..=input.len() - n)
+                    .map(|i| (0..*n).fold(0u64, |acc, j| acc.wrapping_add(((n - j) as u64).wrapping_mul(input[i + j]))))
+                    .collect()
+            }
         }
     }
     fn to_json(&self) -> Value {
@@ -57,6 +68,7 @@ impl Stage {
             Stage::MoveWait => json!("MoveWait"),
             Stage::SyncId => json!("SyncId"),
             Stage::MoveWaitFunc => json!("MoveWaitFunc"),
+            Stage::Fir(n) => json!({"Fir": n}),
         }
     }
     fn from_json(v: &Value) -> Self {
@@ -75,6 +87,7 @@ impl Stage {
             "MulConst" => Stage::MulConst(x.as_u64().unwrap()),
             "Skip" => Stage::Skip(x.as_u64().unwrap() as usize),
             "Delay" => Stage::Delay(x.as_u64().unwrap() as usize),
+            "Fir" => Stage::Fir(x.as_u64().unwrap() as usize),
             "Resamp" => Stage::Resamp(x[0].as_u64().unwrap() as usize, x[1].as_u64().unwrap() as usize),
             _ => panic!("stage {k}"),
         }
@@ -109,6 +122,8 @@ pub struct GraphSpec {
     pub order: Vec<usize>,
     /// 0: VectorSource. n > 0: FileSource repeating the data n times.
     pub file_repeat: u64,
+    /// With `file_repeat == 0`: n > 1 makes the VectorSource repeat n times.
+    pub vec_repeat: u64,
 }
 
 impl GraphSpec {
@@ -122,7 +137,7 @@ impl GraphSpec {
             Shape::VecPackets(v) => json!({"vecpackets": v}),
         };
         json!({"shape": shape, "per_page": self.per_page, "pages": self.pages, "src_len": self.src_len, "order": self.order,
-            "file_repeat": self.file_repeat})
+            "file_repeat": self.file_repeat, "vec_repeat": self.vec_repeat})
     }
     pub fn from_json(v: &Value) -> Self {
         let o = v["shape"].as_object().unwrap();
@@ -145,6 +160,7 @@ impl GraphSpec {
             src_len: us("src_len"),
             order: v["order"].as_array().unwrap().iter().map(|x| x.as_u64().unwrap() as usize).collect(),
             file_repeat: v["file_repeat"].as_u64().unwrap_or(0),
+            vec_repeat: v["vec_repeat"].as_u64().unwrap_or(0),
         }
     }
     pub fn nblocks(&self) -> usize {
@@ -163,9 +179,14 @@ impl GraphSpec {
     /// written to.
     pub fn degenerate(&self) -> bool {
         let src = self.source_data();
+        let cap = self.per_page * self.pages;
         let chain_has_starved_delay = |st: &[Stage], mut v: Vec<u64>| {
             for s in st {
                 if matches!(s, Stage::Delay(_)) && v.is_empty() {
+                    return true;
+                }
+                // A window that does not fit the stream can never be filled.
+                if matches!(s, Stage::Fir(n) if *n > cap) {
                     return true;
                 }
                 v = s.spec(&v);
@@ -185,8 +206,9 @@ impl GraphSpec {
     /// What the source emits in total.
     pub fn source_data(&self) -> Vec<u64> {
         let once: Vec<u64> = (0..self.src_len as u64).map(|i| 10 + i).collect();
-        if self.file_repeat > 1 {
-            (0..self.file_repeat).flat_map(|_| once.iter().copied()).collect()
+        let r = self.file_repeat.max(self.vec_repeat);
+        if r > 1 {
+            (0..r).flat_map(|_| once.iter().copied()).collect()
         } else {
             once
         }
@@ -297,6 +319,11 @@ fn stage_block<T: BigT>(s: &Stage, src: ReadStream<T>) -> (Box<dyn Block + Send>
             let (b, o) = MoveWaitFunc::new(src);
             (Box::new(b), o)
         }
+        Stage::Fir(n) => {
+            let taps: Vec<T> = (1..=*n as u64).map(T::from).collect();
+            let (b, o) = rustradio::fir::FirFilter::new(src, &taps);
+            (Box::new(b), o)
+        }
     }
 }
 
@@ -338,10 +365,19 @@ pub fn build<T: BigT>(g: &GraphSpec) -> Built<T> {
         blocks.push(Box::new(src));
         o
     } else {
-        let data: Vec<T> = g.source_data().iter().map(|x| T::from(*x)).collect();
-        let (src, o) = VectorSource::new(data);
-        blocks.push(Box::new(src));
-        o
+        if g.vec_repeat > 1 {
+            let data: Vec<T> = (0..g.src_len as u64).map(|i| T::from(10 + i)).collect();
+            let (src, o) = rustradio::vector_source::VectorSourceBuilder::new(data)
+                .repeat(rustradio::Repeat::finite(g.vec_repeat))
+                .build();
+            blocks.push(Box::new(src));
+            o
+        } else {
+            let data: Vec<T> = g.source_data().iter().map(|x| T::from(*x)).collect();
+            let (src, o) = VectorSource::new(data);
+            blocks.push(Box::new(src));
+            o
+        }
     };
     match &g.shape {
         Shape::Chain(st) => {
